@@ -1217,6 +1217,10 @@ class Flow:
                         p = self.path_of(v)
                         if p is not None:
                             self.rebind(st, t.id, loc=("at",) + p)
+                        elif isinstance(v, ast.Attribute) and v.attr == LIST_ATTR and isinstance(v.value, ast.Name):
+                            # `w = <seq>._messages` without a copy: w IS the message list of that sequence object; the value
+                            # translation binds a copy, so any change through w would be lost on the object (audit round 3, R3)
+                            self.rebind(st, t.id, loc=("ro", f"{v.value.id}.{LIST_ATTR}"))
                         else:
                             self.rebind(st, t.id)          # a fresh object (checked by the translator: [], dict(), ctor, copy)
                 else:
